@@ -88,6 +88,7 @@ def cases(tier, seed):
             _pl(2, "-", "full", 90.0, [8]),
         ]
         out += _seed_elements(seed, [8])[:1]
+        out.append(dict(_dip(2, "centre", [8]), kappa_end=4.0))  # kappa-graded (coordinate-stretched) layers
     else:
         for posname in POSITIONS:
             for pol in range(3):
@@ -99,6 +100,9 @@ def cases(tier, seed):
                     out.append(_pl(ax, d, extent, (0.0, 90.0, 45.0)[k % 3], THICK))
                     k += 1
         out += _seed_elements(seed, THICK)
+        for pol in range(3):
+            out.append(dict(_dip(pol, "centre", THICK), kappa_end=4.0))
+            out.append(dict(_dip(pol, "corner-min-min-min", [8]), kappa_end=2.0))
         out.append(dict(kind="refcheck", base=_dip(2, "corner-min-min-min", []), margins=[24, 40], thick=[]))
     for c in out:
         c["seed"] = seed
